@@ -170,6 +170,16 @@ func (win Window) Print(segs ...Segment) (col int, row int) {
 				// characterWidth will cache the result
 				char.Width = win.Vx.characterWidth(char.Grapheme)
 			}
+			if col+char.Width > cols {
+				// the cluster does not fit in the rest of the row: it
+				// goes on the next row, or nowhere if it is wider than
+				// the window
+				if char.Width > cols {
+					continue
+				}
+				row += 1
+				col = 0
+			}
 			cell := Cell{
 				Character: char,
 				Style:     seg.Style,
@@ -297,6 +307,16 @@ func (win Window) Wrap(segs ...Segment) (col int, row int) {
 					row += 1
 					col = 0
 					continue
+				}
+				if col+char.Width > cols {
+					// the cluster does not fit in the rest of the
+					// row: it goes on the next row, or nowhere if
+					// it is wider than the window
+					if char.Width > cols {
+						continue
+					}
+					row += 1
+					col = 0
 				}
 				cell := Cell{
 					Character: char,
